@@ -480,6 +480,14 @@ Proof.
   - destruct (Nat.eqb a x) eqn:E; [apply Nat.eqb_eq in E; subst; contradiction|]. rewrite IH; auto.
 Qed.
 
+Lemma zsum_scaled : forall x c l, zsum (map (fun n => if Nat.eqb n x then c else 0%Z) l) = (c * cntz x l)%Z.
+Proof.
+  intros x c l. induction l as [|a l IH]; [unfold cntz; simpl; lia|].
+  change (cntz x (a :: l)) with ((if Nat.eqb a x then 1 else 0) + cntz x l)%Z.
+  cbn [map zsum fold_right]. fold (zsum (map (fun n => if Nat.eqb n x then c else 0%Z) l)). rewrite IH.
+  destruct (Nat.eqb a x); lia.
+Qed.
+
 (* sum over indices a .. a+k-1 of a function of l[i] = sum over the slice *)
 Lemma zsum_nth_seq : forall (h : nat -> Z) (l : list nat) k a, a + k <= length l ->
   zsum (map (fun i => match nth_error l i with Some n => h n | None => 0%Z end) (seq a k)) =
@@ -578,14 +586,11 @@ Section Trace1.
     intros x Hx. destruct trace1_unfold as [up [op [Hu [Nu [Hi [Hl [Ho [Hg H]]]]]]]].
     unfold trace1_of in H.
     rewrite (concat_opt_map_sum (node_dur x) (node_dur_app x) eq_refl _
-               (fun i => match nth_error up i with Some n => if Nat.eqb n x then 1%Z else 0%Z | None => 0%Z end * 2)%Z _ _ H).
-    - assert (E : forall l, zsum (map (fun i => (match nth_error up i with Some n => if Nat.eqb n x then 1 else 0 | None => 0 end * 2)%Z) l) =
-                  (2 * zsum (map (fun i => match nth_error up i with Some n => if Nat.eqb n x then 1 else 0 | None => 0 end%Z) l))%Z).
-      { induction l as [|a l IH]; simpl; [reflexivity|]. rewrite IH. lia. }
-      rewrite E. rewrite (zsum_nth_seq (fun n => if Nat.eqb n x then 1%Z else 0%Z) up (length up) 0); [|lia].
-      simpl skipn. rewrite firstn_all. fold (cntz x up). rewrite cntz_NoDup; auto. apply Hi; auto.
+               (fun i => match nth_error up i with Some n => if Nat.eqb n x then 2%Z else 0%Z | None => 0%Z end) _ _ H).
+    - rewrite (zsum_nth_seq (fun n => if Nat.eqb n x then 2%Z else 0%Z) up (length up) 0); [|lia].
+      simpl skipn. rewrite firstn_all. rewrite zsum_scaled. rewrite cntz_NoDup; auto. apply Hi; auto.
     - intros i es Hin Hes. destruct (t1_update_inv _ _ _ _ _ _ Hes) as [n [Hn _]]. rewrite Hn.
-      rewrite (t1_update_node_dur _ _ _ _ _ _ n x Hes Hn). destruct (Nat.eqb n x); reflexivity.
+      apply (t1_update_node_dur _ _ _ _ _ _ n x Hes Hn).
   Qed.
 
   (* the signed durations of one step add up to one step *)
@@ -620,7 +625,7 @@ Section Trace1.
     { intros p Hp. apply moves_kind in Hp. destruct e; simpl in Hp; try contradiction; exact I. }
     destruct Hc as [[Ei [p [first [r [_ [Hr ->]]]]]]|[[Ei [E0 [nx [q [Hq ->]]]]]|[Ei [E0 [p [nx [q [Hq ->]]]]]]]].
     - (* final update *)
-      apply in_app_or in Hin. destruct Hin as [Hin|Hin]; [auto|].
+      apply in_app_or in Hin. destruct Hin as [Hin|Hin]; [exact (Hmv p Hin)|].
       apply in_app_or in Hin. destruct Hin as [Hin|Hin].
       + destruct (Nat.ltb 2 (size t)); [|destruct Hin]. destruct Hin as [<-|[]].
         destruct (update_path_end t Hw) as [l [z [Hz Hd]]]. rewrite Hu in Hz. inversion Hz; subst up.
@@ -641,7 +646,7 @@ Section Trace1.
       { destruct (nth_error up (S i)) eqn:E; eauto. apply nth_error_None in E. lia. }
       destruct Hb as [b Hb]. destruct Hg as [_ Hg]. destruct (Hg i n b Hn Hb) as [nx' [q' [_ [Hq' [Hch _]]]]].
       rewrite Hq in Hq'. inversion Hq'; subst nx' q'. simpl in Hch. destruct Hch as [Hadj _].
-      apply in_app_or in Hin. destruct Hin as [Hin|Hin]; [auto|].
+      apply in_app_or in Hin. destruct Hin as [Hin|Hin]; [exact (Hmv p Hin)|].
       simpl in Hin. destruct Hin as [<-|[<-|[<-|[<-|[<-|[<-|[]]]]]]]; simpl; auto.
   Qed.
 End Trace1.
@@ -677,3 +682,136 @@ Proof.
     + apply Nat.eqb_neq in E0. rewrite Hq.
       destruct (nth_error op (i - 1)) eqn:E; [eauto|]. apply nth_error_None in E. lia.
 Qed.
+
+(* ================================================================================== *)
+(* second-order one-site                                                              *)
+(* ================================================================================== *)
+Lemma last_opt_snoc : forall l z, last_opt (l ++ [z]) = Some z.
+Proof.
+  intros l z. unfold last_opt. destruct l as [|a l]; [reflexivity|].
+  simpl app. cbv iota beta. f_equal. exact (last_last (a :: l) z 0).
+Qed.
+
+Lemma last_opt_Some : forall l z, last_opt l = Some z -> exists r, l = r ++ [z].
+Proof.
+  intros l z H. destruct l as [|a l]; [discriminate|].
+  destruct (@exists_last _ (a :: l)) as [r [y Hy]]; [discriminate|]. rewrite Hy in H. rewrite last_opt_snoc in H.
+  inversion H; subst. eauto.
+Qed.
+
+Lemma t2_forward_inv : forall up op i es, t2_forward up op i = Some es ->
+  exists n p nx q, nth_error up i = Some n /\ nth_error op i = Some (nx :: q) /\
+    es = moves p ++ [AssertCentre n; Site n 1%Z] ++ link n nx 1%Z.
+Proof.
+  intros up op i es H. unfold t2_forward in H. destruct (nth_error up i) as [n|]; [|discriminate].
+  destruct (if Nat.eqb i 0 then Some [] else nth_error op (i - 1)) as [p|]; [|discriminate].
+  destruct (nth_error op i) as [[|nx q]|]; try discriminate. inversion H. exists n, p, nx, q. auto.
+Qed.
+
+Lemma t2_backward_inv : forall bup bop ui es, t2_backward bup bop ui = Some es ->
+  exists n p nx, nth_error bup ui = Some n /\ nth_error bop (ui - 1) = Some p /\ nth_error bup (ui + 1) = Some nx /\
+    es = [AssertCentre n; Site n 1%Z] ++ moves p ++ link (last p n) nx 1%Z.
+Proof.
+  intros bup bop ui es H. unfold t2_backward in H. destruct (nth_error bup ui) as [n|]; [|discriminate].
+  destruct (nth_error bop (ui - 1)) as [p|]; [|discriminate]. destruct (nth_error bup (ui + 1)) as [nx|]; [|discriminate].
+  inversion H. exists n, p, nx. auto.
+Qed.
+
+Lemma trace2_of_inv : forall up op bop tr, trace2_of up op bop = Some tr ->
+  exists z b1 a fw bw, last_opt up = Some z /\ nth_error (rev up) 1 = Some b1 /\ last_opt (rev up) = Some a /\
+    concat_opt (map (t2_forward up op) (seq 0 (length up - 1))) = Some fw /\
+    concat_opt (map (t2_backward (rev up) bop) (seq 1 (length up - 2))) = Some bw /\
+    tr = fw ++ ([AssertCentre z; Site z 2%Z] ++ link z b1 1%Z) ++ bw ++ [AssertCentre a; Site a 1%Z].
+Proof.
+  intros up op bop tr H. unfold trace2_of in H. destruct (last_opt up) as [z|]; [|discriminate].
+  destruct (nth_error (rev up) 1) as [b1|]; [|discriminate]. destruct (last_opt (rev up)) as [a|]; [|discriminate].
+  apply opt_app_Some in H. destruct H as [fw [r1 [Hfw [H ->]]]].
+  apply opt_app_Some in H. destruct H as [m [r2 [Hm [H ->]]]]. inversion Hm; subst m.
+  apply opt_app_Some in H. destruct H as [bw [f [Hbw [Hf ->]]]]. inversion Hf; subst f.
+  exists z, b1, a, fw, bw. repeat split; auto.
+Qed.
+
+Lemma t2_forward_durs : forall up op i es n x, t2_forward up op i = Some es -> nth_error up i = Some n ->
+  node_dur x es = (if Nat.eqb n x then 1%Z else 0%Z) /\ total_dur es = 0%Z.
+Proof.
+  intros up op i es n x H Hn. apply t2_forward_inv in H. destruct H as [n' [p [nx [q [Hn' [_ ->]]]]]].
+  assert (n' = n) by congruence. subst n'. rewrite !node_dur_app, !total_dur_app.
+  destruct (moves_durs p) as [M [_ M3]]. rewrite M, M3. unfold node_dur, total_dur. simpl. destruct (Nat.eqb n x); lia.
+Qed.
+
+Lemma t2_backward_durs : forall bup bop i es n x, t2_backward bup bop i = Some es -> nth_error bup i = Some n ->
+  node_dur x es = (if Nat.eqb n x then 1%Z else 0%Z) /\ total_dur es = 0%Z.
+Proof.
+  intros bup bop i es n x H Hn. apply t2_backward_inv in H. destruct H as [n' [p [nx [Hn' [_ [_ ->]]]]]].
+  assert (n' = n) by congruence. subst n'. rewrite !node_dur_app, !total_dur_app.
+  destruct (moves_durs p) as [M [_ M3]]. rewrite M, M3. unfold node_dur, total_dur. simpl. destruct (Nat.eqb n x); lia.
+Qed.
+
+Section Trace2.
+  Variables (t : rtree) (tr : list ev).
+  Hypothesis Hw : NoDup (ids t).
+  Hypothesis Htr : trace2 t = Some tr.
+
+  Lemma trace2_unfold : exists up op bop, update_path t = Some up /\ NoDup up /\ (forall x, In x up <-> In x (ids t)) /\
+    trace2_of up op bop = Some tr.
+  Proof.
+    destruct (update_path_facts t Hw) as [up [Hu [Nu [Hi Hl]]]]. unfold trace2 in Htr. rewrite Hu in Htr.
+    destruct (orth_paths t up) as [op|]; [|discriminate]. destruct (back_orth_paths t (rev up)) as [bop|]; [|discriminate].
+    exists up, op, bop. tauto.
+  Qed.
+
+  Theorem trace2_total_duration : total_dur tr = 2%Z.
+  Proof.
+    destruct trace2_unfold as [up [op [bop [Hu [Nu [Hi H]]]]]].
+    destruct (trace2_of_inv _ _ _ _ H) as [z [b1 [a [fw [bw [Hz [Hb1 [Ha [Hfw [Hbw ->]]]]]]]]]].
+    rewrite !total_dur_app.
+    rewrite (concat_opt_map_sum total_dur total_dur_app eq_refl _ (fun _ => 0%Z) _ _ Hfw).
+    2:{ intros i es _ Hes. destruct (t2_forward_inv _ _ _ _ Hes) as [n [_ [_ [_ [Hn _]]]]].
+        exact (proj2 (t2_forward_durs _ _ _ _ n 0 Hes Hn)). }
+    rewrite (concat_opt_map_sum total_dur total_dur_app eq_refl _ (fun _ => 0%Z) _ _ Hbw).
+    2:{ intros i es _ Hes. destruct (t2_backward_inv _ _ _ _ Hes) as [n [_ [_ [Hn _]]]].
+        exact (proj2 (t2_backward_durs _ _ _ _ n 0 Hes Hn)). }
+    assert (Z0 : forall l, zsum (map (fun _ : nat => 0%Z) l) = 0%Z) by (induction l; simpl; auto).
+    rewrite !Z0. unfold total_dur. simpl. lia.
+  Qed.
+
+  Theorem trace2_site_durations : forall x, In x (ids t) -> node_dur x tr = 2%Z.
+  Proof.
+    intros x Hx. destruct trace2_unfold as [up [op [bop [Hu [Nu [Hi H]]]]]].
+    destruct (trace2_of_inv _ _ _ _ H) as [z [b1 [a [fw [bw [Hz [Hb1 [Ha [Hfw [Hbw ->]]]]]]]]]].
+    (* up = a0 :: mid ++ [z] *)
+    destruct (last_opt_Some _ _ Hz) as [r Er].
+    assert (Hlen : 2 <= length up).
+    { assert (1 < length (rev up)) by (apply nth_error_Some; congruence). rewrite rev_length in H0. lia. }
+    destruct r as [|a0 mid]; [subst up; simpl in Hlen; lia|].
+    assert (Ea : a = a0).
+    { rewrite Er in Ha. simpl in Ha. rewrite rev_app_distr in Ha. simpl in Ha.
+      change (z :: rev mid ++ [a0]) with ((z :: rev mid) ++ [a0]) in Ha. rewrite last_opt_snoc in Ha. congruence. }
+    subst a.
+    rewrite !node_dur_app.
+    rewrite (concat_opt_map_sum (node_dur x) (node_dur_app x) eq_refl _
+               (fun i => match nth_error up i with Some n => if Nat.eqb n x then 1%Z else 0%Z | None => 0%Z end) _ _ Hfw).
+    2:{ intros i es _ Hes. destruct (t2_forward_inv _ _ _ _ Hes) as [n [_ [_ [_ [Hn _]]]]]. rewrite Hn.
+        exact (proj1 (t2_forward_durs _ _ _ _ n x Hes Hn)). }
+    rewrite (concat_opt_map_sum (node_dur x) (node_dur_app x) eq_refl _
+               (fun i => match nth_error (rev up) i with Some n => if Nat.eqb n x then 1%Z else 0%Z | None => 0%Z end) _ _ Hbw).
+    2:{ intros i es _ Hes. destruct (t2_backward_inv _ _ _ _ Hes) as [n [_ [_ [Hn _]]]]. rewrite Hn.
+        exact (proj1 (t2_backward_durs _ _ _ _ n x Hes Hn)). }
+    rewrite (zsum_nth_seq (fun n => if Nat.eqb n x then 1%Z else 0%Z) up (length up - 1) 0) by lia.
+    rewrite (zsum_nth_seq (fun n => if Nat.eqb n x then 1%Z else 0%Z) (rev up) (length up - 2) 1) by (rewrite rev_length; lia).
+    fold (cntz x (firstn (length up - 1) (skipn 0 up))). fold (cntz x (firstn (length up - 2) (skipn 1 (rev up)))).
+    assert (E1 : firstn (length up - 1) (skipn 0 up) = a0 :: mid).
+    { subst up. simpl skipn. simpl length. rewrite app_length. simpl length.
+      replace (S (length mid + 1) - 1) with (S (length mid)) by lia. simpl. f_equal.
+      rewrite firstn_app, firstn_all, Nat.sub_diag. simpl. apply app_nil_r. }
+    assert (E2 : firstn (length up - 2) (skipn 1 (rev up)) = rev mid).
+    { subst up. simpl rev. rewrite rev_app_distr. simpl. rewrite app_length. simpl length.
+      replace (S (length mid + 1) - 2) with (length (rev mid)) by (rewrite rev_length; lia).
+      rewrite firstn_app, firstn_all, Nat.sub_diag. simpl. apply app_nil_r. }
+    rewrite E1, E2, cntz_rev.
+    assert (C : cntz x up = 1%Z) by (apply cntz_NoDup; auto; apply Hi; auto).
+    rewrite Er in C. change (a0 :: mid) with ([a0] ++ mid) in C. rewrite <- app_assoc in C. rewrite !cntz_app in C.
+    change (a0 :: mid) with ([a0] ++ mid). rewrite cntz_app.
+    unfold cntz in *. unfold node_dur. simpl in *. destruct (Nat.eqb a0 x), (Nat.eqb z x); lia.
+  Qed.
+End Trace2.
